@@ -12,6 +12,7 @@ import (
 func main() {
 	cfg := hlib.ParseFlags()
 	s := hlib.NewSuite(cfg, "bits")
+	defer s.FinishOnPanic()
 	s.Header = "From QF Require Import Base.Prelude Base.CaseLib Model.Bits Corr.BitsCorr.\nLocal Open Scope N_scope.\n"
 	s.CaseType = "bits_case"
 	s.CheckFn = "check_bits"
